@@ -388,4 +388,22 @@ theorem race_cut_releases (n : Nat) (cfg : Sources α) (hhot : ∀ k, cfg.sync k
   · rename_i hd
     exact he.closed (by simpa using hd) j hj
 
+theorem cut_subs {σ β : Type} (m : MMachine σ α β) (r : MSt σ α β) : (r.cut m).subs = r.subs := by
+  unfold MSt.cut; split <;> simp
+
+/-- … and nothing that arrives afterwards changes that -/
+theorem race_cut_then (n : Nat) (cfg : Sources α) (hhot : ∀ k, cfg.sync k = false) (sub : Ctx) (evs evs' : List (MEvent α))
+    (j : Nat) (hj : j < n) :
+    (feedAll (raceM n) cfg ((feedAll (raceM n) cfg (bootSt (raceM n) cfg sub) evs).cut (raceM n)) evs').sopen j = false := by
+  have he := race_end n cfg hhot sub evs
+  have hall : ∀ k, ((feedAll (raceM n) cfg (bootSt (raceM n) cfg sub) evs).cut (raceM n)).subs k = 0 ∨
+      ((feedAll (raceM n) cfg (bootSt (raceM n) cfg sub) evs).cut (raceM n)).sopen k = false := by
+    intro k
+    by_cases hk : k < n
+    · right; exact race_cut_releases n cfg hhot sub evs k hk
+    · left; rw [cut_subs]
+      exact Classical.byContradiction (fun hc => hk ((he.subs k).1 hc))
+  rw [(feedAll_allClosed _ _ _ _ hall).1]
+  exact race_cut_releases n cfg hhot sub evs j hj
+
 end Ro.Multi
